@@ -63,15 +63,17 @@ def dec_list(s: str) -> typing.List[str]:
     return [] if s == '_' else s.split(',')
 
 
-def stem(rel: str) -> str:
+def stem(rel: str) -> typing.Optional[str]:
+    """the property's reading: a file is the template of class X only if its NAME is exactly X.j2 (None = not a template)"""
     b = rel.rsplit('/', 1)[-1]
-    return b[:-3] if b.endswith('.j2') else b
+    return b[:-3] if (b.endswith('.j2') and len(b) > 3) else None
 
 
 def enc_tset(names: typing.Optional[typing.List[str]]) -> str:
+    """raw listing in the order of the bundled loaders (sorted); suffix filter and stem are applied by the model"""
     if names is None:
         return '-'
-    return enc_list(['%s:%s' % (enc(stem(n)), enc(n)) for n in sorted(names)])
+    return enc_list([enc(n) for n in sorted(names)])
 
 
 def run_model(exe: str, lines: typing.List[str]) -> typing.List[str]:
@@ -110,7 +112,7 @@ def oracle_lookup(chains, case) -> typing.List[typing.Optional[str]]:
         for names in (fs, pkg):
             if names is None or r is not None:
                 continue
-            m = {stem(n): n for n in sorted(names)}
+            m = {stem(n): n for n in sorted(names) if stem(n) is not None}
             for anc in chains[cn]:
                 if anc in m:
                     r = m[anc]
@@ -135,7 +137,7 @@ def memo_trigger(chains, case) -> bool:
     fs, pkg = loaders(case)
     if fs is None or pkg is None:
         return False
-    st = {stem(n) for n in pkg}
+    st = {stem(n) for n in pkg if stem(n) is not None}
     return any(c in st and any(a in st for a in ch[1:]) for c, ch in chains.items())
 
 
@@ -155,12 +157,55 @@ def oracle_test(chains, roots: typing.Dict[str, str], name: str, v: dict) -> typ
 
 
 # ---- case generators -----------------------------------------------------------------------------------------
+DECOYS = ['%s.inc.j2', '%s.draft.j2', '%s.j2.bak', '%s.txt', '%s.J2', '%s', '%s..j2', '%s.j2x', '%sx.j2', 'x%s.j2', '_%s.j2',
+          '%s.j2.j2', '%s .j2', 'sub/%s.j2', 'Aaa/%s.j2', 'zz/deep/%s.j2', 'sub/%s.inc.j2', '%s.tmpl/inner.txt']
+
+
+def decoys(rng, names: typing.Sequence[str], k: int) -> typing.List[str]:
+    """files that are NOT named exactly <Class>.j2 at top level: multi-dot names, other suffixes, case variants, prefixes and
+    suffixes of class names, and same-stem files in sub-directories (those DO count for the code: sorted-last wins)"""
+    out = []
+    for _ in range(k):
+        x = rng.choice(names)
+        kind = rng.randrange(len(DECOYS) + 3)
+        if kind < len(DECOYS):
+            out.append(DECOYS[kind] % x)
+        elif kind == len(DECOYS):
+            out.append(x.lower() + '.j2')
+        elif kind == len(DECOYS) + 1:
+            out.append(x[:-1] + '.j2')
+        else:
+            out.append(rng.choice(['.j2', 'base.j2', 'Namespace.j2', 'README.md', '__init__.py']))
+    return out
+
+
+def with_decoys(rng, real: typing.Optional[typing.List[str]], names, p: float, k: int = 4) -> typing.Optional[typing.List[str]]:
+    if real is None or rng.random() > p:
+        return real
+    out = list(real)
+    for dname in decoys(rng, names, rng.randrange(1, k + 1)):
+        # no file and directory of the same name, no duplicate
+        if dname not in out and not any(o.startswith(dname + '/') or dname.startswith(o + '/') for o in out):
+            out.append(dname)
+    return out
+
+
 def gen_lookup_cases(rng, chains: typing.Dict[str, typing.List[str]], n: int, tier: str) -> typing.List[dict]:
     classes = sorted(chains)
     cases = []
 
     def tpl(names):
         return [x + '.j2' for x in names]
+    # (0) fixed corpus of files that must NOT count (each alone in the user dir, the real template in the package), and that must
+    for x, par in (('StructureType', 'CompositeType'), ('PrimitiveType', 'SerializableType'), ('Any', 'ABC')):
+        if x in chains and par in chains.get(x, []):
+            leaf = max((c for c in classes if x in chains[c]), key=lambda c: len(chains[c]))
+            for pat in DECOYS + ['%s.inc.j2|%s.j2']:
+                fs = [q % x for q in pat.split('|')]
+                for pol in ('FIND_ALL', 'FIND_FIRST'):
+                    cases.append({'policy': pol, 'fs': fs + tpl([par]), 'pkg': tpl([x]), 'seq': [leaf, x, leaf], 'get': [fs[0], x + '.j2']})
+            cases.append({'policy': 'FIND_ALL', 'fs': [x.lower() + '.j2', x[:-1] + '.j2'], 'pkg': tpl([x]), 'seq': [leaf, x], 'get': []})
+            cases.append({'policy': 'FIND_ALL', 'fs': None, 'pkg': [x + '.inc.j2', x + '.draft.j2'] + tpl([par]), 'seq': [leaf, x], 'get': []})
     # (a) fixed corpus: the memo-cross shape in several places of the hierarchy, shadowing, policies, sub-directory
     for anc, desc, sib in (('IntegerType', 'UnsignedIntegerType', 'SignedIntegerType'), ('Any', 'StructureType', 'VoidType'),
                            ('CompositeType', 'UnionType', 'ServiceType'), ('SerializableType', 'ByteType', 'BooleanType'),
@@ -182,8 +227,8 @@ def gen_lookup_cases(rng, chains: typing.Dict[str, typing.List[str]], n: int, ti
         for _ in range(per_class):
             fs = None if rng.random() < 0.12 else tpl([a for a in ch if rng.random() < rng.choice([0.1, 0.3, 0.6])])
             pkg = None if rng.random() < 0.12 else tpl([a for a in ch if rng.random() < rng.choice([0.2, 0.5, 0.8])])
-            if fs is not None and rng.random() < 0.3:
-                fs.append(rng.choice(['base.j2', 'Namespace.j2', 'serialization.j2', 'README.txt']))
+            fs = with_decoys(rng, fs, ch, 0.5)
+            pkg = with_decoys(rng, pkg, ch, 0.3)
             warm = [rng.choice(ch + classes[:3]) for _ in range(rng.randrange(0, 4))]
             cases.append({'policy': rng.choice(['FIND_ALL', 'FIND_ALL', 'FIND_FIRST']), 'fs': fs, 'pkg': pkg, 'seq': warm + [cn] + warm[:1],
                           'get': rng.sample(tpl(ch), min(2, len(ch)))})
@@ -195,8 +240,11 @@ def gen_lookup_cases(rng, chains: typing.Dict[str, typing.List[str]], n: int, ti
         dens = rng.choice([0.05, 0.15, 0.35])
         fs = None if rng.random() < 0.1 else tpl([c for c in classes if rng.random() < dens])
         pkg = None if rng.random() < 0.1 else tpl([c for c in classes if rng.random() < rng.choice([0.1, 0.3, 0.5])])
+        fs = with_decoys(rng, fs, pool, 0.5, 6)
+        pkg = with_decoys(rng, pkg, pool, 0.3, 6)
         seq = [rng.choice(pool) for _ in range(rng.randrange(1, 8 if tier == 'quick' else 14))]
-        cases.append({'policy': rng.choice(['FIND_ALL', 'FIND_ALL', 'FIND_FIRST']), 'fs': fs, 'pkg': pkg, 'seq': seq, 'get': []})
+        get = rng.sample(fs, min(2, len(fs))) if fs and rng.random() < 0.3 else []
+        cases.append({'policy': rng.choice(['FIND_ALL', 'FIND_ALL', 'FIND_FIRST']), 'fs': fs, 'pkg': pkg, 'seq': seq, 'get': get})
     return cases
 
 
@@ -300,10 +348,13 @@ def env_oracle(c: dict, ref: dict, got: dict, d: dict) -> typing.Optional[str]:
 # ---- main ---------------------------------------------------------------------------------------------------------
 def main(chk: core.Check, replay: typing.Optional[str] = None) -> int:
     load_known_fragment(chk)
-    res = core.coq_check('C16', ['lookup'])
+    res = core.coq_check('C16', ['lookup', 'pin_c16_loader', 'pin_c16_env'])
     chk.proof_coverage(res, [
         'C16 translator tools/translators/gen_c16.py: T1 dump of the pydsdl forest / template listings / bundled jinja2 names / per-language '
-        'environment names / RESERVED_GLOBAL_ sets, T2 translation of the alias rule of _create_instance_tests_for_type',
+        'environment names / RESERVED_GLOBAL_ sets / TEMPLATE_SUFFIX, T2 translation of the alias rule and of _field_is_instance, of the '
+        'gate on additional_globals, statement order of CodeGenEnvironment.__init__',
+        'shape pins (tools/translators/shape_pin.py, pins/c16_loader.txt, pins/c16_env.txt) for the hand-modelled loader functions and '
+        '_add_to_environment/add_test/_add_each_to_environment; model of pathlib suffix/stem (Python 3.12 semantics) in Gen/Lookup.v',
         'hand models Gen/Lookup.v (loader, instance tests) and Gen/LookupEnv.v (environment), tied by the correspondence run below',
         'extraction: Require Extraction ExtrOcamlBasic only; OCaml 4.13.1; ocaml/c16_driver.ml',
     ])
@@ -376,7 +427,8 @@ def main(chk: core.Check, replay: typing.Optional[str] = None) -> int:
         chk.violation({'what': 'C16 harness could not run', 'output': impl['harness_error'], 'broken': broken}, found_input=False)
         return chk.finish()
 
-    stats = {'lookup_cases': len(lk_cases), 'lookups': 0, 'warm_lookups': 0, 'both_loaders': 0, 'find_first': 0, 'memo_trigger_cases': 0,
+    stats = {'decoy_files': sum(1 for c in lk_cases for k in ('fs', 'pkg') for x in (c[k] or []) if stem(x) not in chains or '/' in x),
+             'lookup_cases': len(lk_cases), 'lookups': 0, 'warm_lookups': 0, 'both_loaders': 0, 'find_first': 0, 'memo_trigger_cases': 0,
              'known_memo_instances': 0, 'results_none': 0, 'results_user': 0, 'results_builtin': 0, 'nearest_not_self': 0,
              'user_ancestor_beats_builtin_self': 0, 'test_evaluations': 0, 'test_values': 0, 'known_attr_instances': 0,
              'env_cases': len(env_cases), 'env_errors': 0, 'env_dsdl_mode': 0, 'known_glob_instances': 0, 'env_allow': 0}
@@ -419,7 +471,7 @@ def main(chk: core.Check, replay: typing.Optional[str] = None) -> int:
             r = exp[j]
             stats['results_none'] += r is None
             if r is not None:
-                from_user = fs is not None and r in fs and stem(r) in chains[cn] and any(stem(x) == stem(r) for x in fs)
+                from_user = fs is not None and r in fs and stem(r) in chains[cn]
                 stats['results_user' if from_user else 'results_builtin'] += 1
                 stats['nearest_not_self'] += stem(r) != cn
                 if from_user and stem(r) != cn and pkg is not None and (cn + '.j2') in pkg:
@@ -436,10 +488,6 @@ def main(chk: core.Check, replay: typing.Optional[str] = None) -> int:
             else:
                 bad_oracle.append(('lookup', c, {'res': exp, 'src': exp_src, 'get': exp_get}, got, model))
         if model is not None:
-            if trig and live_memo != q_shared:
-                continue
-            if trig and not live_memo:
-                continue  # finding repaired: only the oracle applies on the trigger inputs
             traces += 1
             if 'bad' in model or model['res'] != got['res'] or model['src'] != got['src'] or model['get'] != got['get']:
                 bad_model.append(('lookup', c, model, got))
@@ -477,7 +525,7 @@ def main(chk: core.Check, replay: typing.Optional[str] = None) -> int:
                     stats['known_attr_instances'] += 1
                 else:
                     bad_oracle.append(('test', {'name': name, 'value': {'cls': v['cls'], 'dt': v['dt']}}, e, g, None))
-            if ok_model and ids and v['cls'] in ids and (v['dt'] is None or v['dt'] in ids) and not (trig and live_attr != q_dt):
+            if ok_model and ids and v['cls'] in ids and (v['dt'] is None or v['dt'] in ids):
                 tlines.append('T %s %s %d %d' % ('1' if q_dt else '0', enc(name), ids[v['cls']], ids[v['dt']] if v['dt'] else ids[v['cls']]))
                 tkeys.append((name, v, g))
     tout = run_model(exe, tlines) if tlines else []
@@ -513,8 +561,6 @@ def main(chk: core.Check, replay: typing.Optional[str] = None) -> int:
             else:
                 bad_oracle.append(('env', c, complaint, got, model))
         if eout is not None:
-            if glob_trig and (live_glob != q_glob or not live_glob):
-                continue
             traces += 1
             distinct.add(('env', json.dumps(c, sort_keys=True)))
             if model is None:
@@ -535,8 +581,9 @@ def main(chk: core.Check, replay: typing.Optional[str] = None) -> int:
         'evaluations': stats['lookups'] + stats['test_evaluations'] + len(env_cases),
         'distinct_nontrivial': len(distinct),
         'rule': 'lookup: fixed corpus (memo-cross shape at six places of the hierarchy x user-set variants x both policies, shadowing, '
-                'sub-directories) + every class of the dumped forest x random subsets of its own chain as user / built-in templates x warm-up '
-                'lookups + random sets over all class names with sequences of up to 7 (quick) / 13 (thorough) lookups biased to related '
+                'sub-directories, every decoy pattern -- X.inc.j2, X.draft.j2, X.j2.bak, X.txt, X.J2, x.j2, prefixes/suffixes of class names, '
+                'same stem in sub-directories -- alone in the user dir with the real template in the package) + every class of the dumped forest x random subsets of its own chain as user / built-in templates x warm-up '
+                'lookups, decoy files mixed into half of the user sets and a third of the built-in sets + random sets over all class names with sequences of up to 7 (quick) / 13 (thorough) lookups biased to related '
                 'classes' + ('; + every pair of subsets of the deepest chain (6 classes) with warm memo' if chk.tier != 'quick' else '') +
                 '; tests: every DSDL test name x every object of a parsed namespace (types, fields, padding, constants, element and tag '
                 'types); env: every name present in a fresh environment / reserved / DSDL test / generator method as additional global, '
